@@ -258,7 +258,7 @@ func main() {
 	var scs []*vrt.Scenario
 	for _, s := range shapes {
 		for _, tg := range []string{"DEPLOY", "CONFIGURE", "START", "STOP", "RESET", "CONFIGURE2"} {
-			scs = append(scs, scenario(s, tg, vrt.Bounds{Dev: 0, Seconds: 100}, vrt.Bounds{Dev: 1, Seconds: 600}))
+			scs = append(scs, scenario(s, tg, vrt.Bounds{Dev: 0, Seconds: 100}, vrt.Bounds{Dev: 1, Seconds: 60}))
 		}
 	}
 	scs = append(scs, emptyScenario())
